@@ -1,6 +1,8 @@
 import AtreeProofs.MapInv
 import AtreeProofs.MapLemmas
 import AtreeProofs.Map.TreeBasics
+import AtreeProofs.Map.Limit
+import AtreeProofs.Map.Example
 /-
   C12 — Maps stay correct under arbitrary hash collisions and enforce the limit.
   C02's theorems already hold for EVERY digest function; this file adds the collision-limit
@@ -28,7 +30,10 @@ theorem limit_refuses_new_key (T : Nat) (hT : legalThreshold T = true) (D : Dige
     (habsent : dictLookup m.toList k = none)
     (hfull : firstLevelGroupCount m k ≥ cfg.climit + 1) :
     m.set cfg k v c = .error .collisionLimit := by
-  sorry
+  have hs := OMap.set_spec hT hcfg h hk hv c hc
+  apply hs.1
+  rw [tlimited_iff hT h.tree h.sinv]
+  exact ⟨(dictLookup_none_iff h.allKeyOk hk).mp habsent, hfull⟩
 
 /-- … and is accepted when the group is not yet over the limit, or the key is present (update). -/
 theorem limit_allows_update_and_room (T : Nat) (hT : legalThreshold T = true) (D : DigestFn (r + 1)) (cfg : MCfg)
@@ -36,7 +41,17 @@ theorem limit_allows_update_and_room (T : Nat) (hT : legalThreshold T = true) (D
     (v : Elem) (hv : ValueOkM v) (c : Ctx) (hc : CtxOk m c)
     (hroom : (dictLookup m.toList k).isSome ∨ firstLevelGroupCount m k < cfg.climit + 1) :
     ∃ old m' c', m.set cfg k v c = .ok (old, m', c') := by
-  sorry
+  have hs := OMap.set_spec hT hcfg h hk hv c hc
+  have hnl : ¬ TLimited cfg m.d m.root k := by
+    intro hl
+    rw [tlimited_iff hT h.tree h.sinv] at hl
+    obtain ⟨habs, hcnt⟩ := hl
+    rcases hroom with h1 | h1
+    · rw [(dictLookup_none_iff h.allKeyOk hk).mpr habs] at h1; simp at h1
+    · have : firstLevelGroupCount m k = groupCount m.d m.root (k.dig 0) := rfl
+      omega
+  obtain ⟨old, m', c', heq, _⟩ := hs.2 hnl
+  exact ⟨old, m', c', heq⟩
 
 /-- Iteration order is canonical: ascending lexicographic order of the digest vectors; pairs with
     identical digest vectors (full collisions) keep their relative order of insertion, which is the
@@ -44,5 +59,39 @@ theorem limit_allows_update_and_room (T : Nat) (hT : legalThreshold T = true) (D
 theorem order_canonical (T : Nat) (D : DigestFn (r + 1)) (m : OMap r) (h : MapInv T D m) :
     (m.toList.map (fun p => p.1.digs)).Pairwise (fun a b => a = b ∨ List.Lex (· < ·) a b) :=
   MTreeInv.ordered m.d true m.root h.tree
+
+/-! ### Non-vacuity
+
+The concrete map `MapExample.run` (see C02: built by running the model with collision limit 1,
+two digest levels, a digest function with a tiny alphabet) satisfies `MapInv`; the first-level
+element under digest 3 is an external collision group holding two second-level digests (one of
+them a last-level list of four fully colliding keys), so a NEW key with first-level digest 3
+meets the hypotheses of `limit_refuses_new_key`. -/
+section NonVacuity
+open MapExample
+
+example : MapInv 256 D2 run.1 := run_good.inv
+example : cfg2.climit = 1 := rfl
+
+/-- key 331: first-level digest 3, second-level digest 3 (new), absent -/
+example : dictLookup run.1.toList (key 331) = none := by decide
+example : firstLevelGroupCount run.1 (key 331) = 2 := by decide
+
+/-- all hypotheses of `limit_refuses_new_key` hold, hence the insertion is refused -/
+example : run.1.set cfg2 (key 331) (val 0) run.2 = .error .collisionLimit :=
+  limit_refuses_new_key 256 legal256 D2 cfg2 run.1 run_good.cfgok run_good.inv (key 331) (key_ok _) (val 0)
+    (val_ok _) run.2 run_good.ctx (by decide) (by decide)
+
+/-- an update of a present key of the same group is accepted, and so is a key under a fresh digest -/
+example : ∃ old m' c', run.1.set cfg2 (key 312) (val 0) run.2 = .ok (old, m', c') :=
+  limit_allows_update_and_room 256 legal256 D2 cfg2 run.1 run_good.cfgok run_good.inv (key 312) (key_ok _) (val 0)
+    (val_ok _) run.2 run_good.ctx (Or.inl (by decide))
+example : ∃ old m' c', run.1.set cfg2 (key 411) (val 0) run.2 = .ok (old, m', c') :=
+  limit_allows_update_and_room 256 legal256 D2 cfg2 run.1 run_good.cfgok run_good.inv (key 411) (key_ok _) (val 0)
+    (val_ok _) run.2 run_good.ctx (Or.inr (by decide))
+
+example := order_canonical 256 D2 run.1 run_good.inv
+
+end NonVacuity
 
 end Atree.C12
